@@ -31,6 +31,19 @@ import (
 
 // parseHost parses the host part of the input string.
 func (p *parser) parseHost(u *Url, parser *parser, input string, isNotSpecial bool) (string, error) {
+	// The address flags describe the host. A successfully parsed host replaces the current one, so
+	// they start out cleared and are set again by the address parsers; on failure the caller keeps
+	// the current host and the flags are restored.
+	wasIPv4, wasIPv6 := u.isIPv4, u.isIPv6
+	u.isIPv4, u.isIPv6 = false, false
+	host, err := p.parseHostString(u, parser, input, isNotSpecial)
+	if err != nil {
+		u.isIPv4, u.isIPv6 = wasIPv4, wasIPv6
+	}
+	return host, err
+}
+
+func (p *parser) parseHostString(u *Url, parser *parser, input string, isNotSpecial bool) (string, error) {
 	if p.opts.preParseHostFunc != nil {
 		input = p.opts.preParseHostFunc(u, input)
 	}
